@@ -76,6 +76,15 @@ check("C19", "histbfs", "model_checking",
       "Bounded depth (3-6 depending on menu size, quick; 4-7 thorough); real OS I/O errors are not injected.",
       "explicit-state BFS of operation histories on real files with a reference model", "DESIGN.md §4 C19")
 
+check("C11", "faultenum", "fault_enumeration",
+      "27 scripts (tight loops, recursion, tail calls, goto loops, pcall/xpcall retry loops, looping error handlers, metamethod recursion, gsub/sort callbacks, iterators, coroutine ping-pong plain/wrapped/nested, host call-backs, terminating programs) x cancellation at every instruction index k up to a horizon: the per-instruction step hook calls the real cancel() at instruction k; for scripts without coroutines an independent poll-counting Context must give the same result. Oracle: error carries the context's reason, bounded number of instructions after k, no host call after k, trace is the prefix of the context-free run, attached-but-undone context changes nothing; blocking receive/send/select are cancelled while parked in the operation (through the reflect shim); coroutines refuse to run after cancellation.",
+      "Horizon 1500 instructions quick / 12000 thorough per script; child-context cancellation is synchronous; the blocking clause uses a 20 s watchdog only to detect a hang.",
+      "exhaustive enumeration of the cancellation point over every instruction boundary of a script family, two independent injection seams", "DESIGN.md §4 C11")
+check("C14", "inputenum", "exploration",
+      "All patterns up to length 3-4 (quick) / 5-6 (thorough) over a 17-symbol pattern alphabet (plus token sequences, set patterns, back-reference patterns) x all subjects up to length 2-4 over a 5-byte alphabet x init positions, through pm.Find and string.find/match/gmatch/gsub (replacement strings, tables, functions, limits); compared with a line-by-line Go port of lstrlib.c 5.1.4's matcher; character-class table over all 128 ASCII bytes; growth families for the recursion cap in a child process.",
+      "Alphabets and bounds as listed in the evidence; not judged: %f, sets mixing classes and ranges, bytes >= 0x80, replacement escapes other than %0-%9 and %%.",
+      "small-scope exhaustive input enumeration against a reference matcher ported from lstrlib.c", "DESIGN.md §4 C14")
+
 engines = [
  {"name":"histbfs","path":"internal/props (c09.go, c18.go, ...)","kind_free_text":"explicit-state BFS over operation histories; successor = replay on a fresh real object + 1 operation; state key = reference model + white-box layout"},
  {"name":"luaref+gen+glrun","path":"internal/luaref, internal/glrun, internal/props/progrun.go","kind_free_text":"bounded-exhaustive program generators, reference Lua 5.1 interpreter, trace comparison with gopher-lua"},
